@@ -82,8 +82,10 @@ def _penv_for(n, penv):
     N = rg.env_len(penv) if penv else 1
     for P in rg.own_params(n):
         if P["k"] != "const" and P["var"] not in pe:
-            d = len(P["V1"][0]) if P["k"] == "affine" else 1
+            d = len(P["V1"][0]) if P["k"] in ("affine", "affine2") else 1
             pe[P["var"]] = np.zeros((N, d))
+        if P["k"] == "affine2" and P["var2"] not in pe:
+            pe[P["var2"]] = np.zeros((N, len(P["V2"][0])))
     if not pe:
         pe = {}
     return pe
